@@ -7,15 +7,33 @@ Open Scope Z_scope.
 Ltac Zify.zify_post_hook ::= Z.to_euclidean_division_equations.
 
 (* ------------------------------------------------------------------ lists *)
+Lemma take_firstn d : forall n, take n d = firstn (Z.to_nat n) d.
+Proof.
+  induction d as [|x d IH]; intros n; cbn [take].
+  - now rewrite firstn_nil.
+  - destruct (n <=? 0) eqn:E.
+    + replace (Z.to_nat n) with 0%nat by lia. reflexivity.
+    + replace (Z.to_nat n) with (S (Z.to_nat (n - 1))) by lia. cbn [firstn]. now rewrite IH.
+Qed.
+
+Lemma drop_skipn d : forall n, drop n d = skipn (Z.to_nat n) d.
+Proof.
+  induction d as [|x d IH]; intros n; cbn [drop].
+  - now rewrite skipn_nil.
+  - destruct (n <=? 0) eqn:E.
+    + replace (Z.to_nat n) with 0%nat by lia. reflexivity.
+    + replace (Z.to_nat n) with (S (Z.to_nat (n - 1))) by lia. cbn [skipn]. now rewrite IH.
+Qed.
+
 Lemma take_app_exact (a b : list Z) n : n = Z.of_nat (length a) -> take n (a ++ b) = a.
 Proof.
-  intros ->. unfold take. rewrite Nat2Z.id.
+  intros ->. rewrite take_firstn. rewrite Nat2Z.id.
   induction a as [|x a IH]; [destruct b; reflexivity|]. cbn [length firstn app]. now rewrite IH.
 Qed.
 
 Lemma drop_app_exact (a b : list Z) n : n = Z.of_nat (length a) -> drop n (a ++ b) = b.
 Proof.
-  intros ->. unfold drop. rewrite Nat2Z.id.
+  intros ->. rewrite drop_skipn. rewrite Nat2Z.id.
   induction a as [|x a IH]; [reflexivity|]. cbn [length skipn app]. exact IH.
 Qed.
 
